@@ -352,9 +352,45 @@ where T: Integer, for<'x> &'x T: IntOps<T> {
 impl<T> Ord for Ratio<T>
 where T: Integer, for<'x> &'x T: IntOps<T> {
     fn cmp(&self, other: &Self) -> cmp::Ordering {
-        let l = self.to_f64();
-        let r = other.to_f64();
-        l.total_cmp(&r)
+        // exact comparison of a/b and c/d (b, d > 0) that never forms the products a*d, c*b: 
+        // compare the integral parts, then the reciprocals of the fractional parts.
+        use cmp::Ordering::*;
+
+        fn div_rem_floor<T>(a: &T, b: &T) -> (T, T)
+        where T: Integer, for<'x> &'x T: IntOps<T> {
+            let (q, r) = (a / b, a % b);
+            if r.is_negative() { 
+                (q - T::one(), r + b)
+            } else { 
+                (q, r)
+            }
+        }
+
+        let (mut a, mut b) = (self.numer.clone(),  self.denom.clone());
+        let (mut c, mut d) = (other.numer.clone(), other.denom.clone());
+        let mut rev = false;
+
+        loop { 
+            let (q1, r1) = div_rem_floor(&a, &b);
+            let (q2, r2) = div_rem_floor(&c, &d);
+
+            let ord = match q1.cmp(&q2) { 
+                Equal => match (r1.is_zero(), r2.is_zero()) { 
+                    (true,  true)  => Equal,
+                    (true,  false) => Less,
+                    (false, true)  => Greater,
+                    (false, false) => { 
+                        // r1/b <=> r2/d is the reverse of b/r1 <=> d/r2.
+                        (a, b, c, d) = (b, r1, d, r2);
+                        rev = !rev;
+                        continue
+                    }
+                },
+                ord => ord
+            };
+            
+            return if rev { ord.reverse() } else { ord }
+        }
     }
 }
 
